@@ -1,9 +1,13 @@
 (* C19 - back-references match a copy of what their group captured.
    Proved: the digit rule (\N followed by further digits denotes the longest number that does not
    exceed the number of groups opened so far; the model's index loop equals the specification's
-   list function).  Partial: the matching clause (copy of the captured text on the selected path)
-   depends on the capture discipline, see the known finding KF-D9-backref. *)
-From RX Require Import Base.Prelude Spec.Parse Model.Compiler Proofs.SmallFacts.
+   list function); and the matching clause at the level of the operation: given what the
+   back-reference arrays hold for group N, the BackReference operation yields exactly what the
+   specification's copy_at prescribes - a copy of the recorded text must follow (compared like
+   literals, case-blind under flag i) and the match ends after it - and a group that has not
+   participated matches the empty string.  Partial: which text the arrays hold on the selected path
+   is the capture discipline, see the known finding KF-D9-backref. *)
+From RX Require Import Base.Prelude Spec.Syntax Spec.Parse Spec.Sem Model.Op Model.Engine Model.Compiler Proofs.SmallFacts Proofs.BackrefFacts.
 
 Theorem C19_digits_partial :
   forall pat limit fuel i br,
@@ -16,4 +20,21 @@ Proof. exact backref_digits_spec. Qed.
 Example C19_ex : backref_num [49;50;51]%N 1 12 = (11%nat, [50;51]%N) /\ backref_num [48]%N 1 9 = (1%nat, [48]%N).
 Proof. vm_compute. split; reflexivity. Qed.
 
+Theorem C19_backref_copy_partial :
+  forall input ci multi hb fl, s_i fl = ci ->
+    forall g path p s st e,
+      nth_error (sb s) g = Some (Some st) -> nth_error (eb s) g = Some (Some e) ->
+      st <= e -> e <= length input -> p <= length input ->
+      mi input ci multi hb (OBackref g) path p s
+      = if copy_at fl input st e p then once (p + (e - st)) s else LNil s.
+Proof. exact backref_copy. Qed.
+
+Theorem C19_backref_unset_partial :
+  forall input ci multi hb g path p s a b,
+    nth_error (sb s) g = Some a -> nth_error (eb s) g = Some b -> (a = None \/ b = None) ->
+    mi input ci multi hb (OBackref g) path p s = once p s.
+Proof. exact backref_unset. Qed.
+
 Print Assumptions C19_digits_partial.
+Print Assumptions C19_backref_copy_partial.
+Print Assumptions C19_backref_unset_partial.
